@@ -197,6 +197,7 @@ def replay_batch_fault_behaviour(rec, d, n_inner):
         fault = (0, _harness_ordinal(rec["fault"], m, d, n_inner, rec["mode"] == "imputer"))
     sc = GB.BatchScenario(cls="batch", mode="many" if rec["mode"] == "imputer" else "original", d=d, n_inner=n_inner,
                           tables="spec", rows=[([F(v) for v in it[0]], it[1]) for it in data], fault=fault)
+    sc.repeat_after_fault = False        # the behaviour (and its scripted draws) ends with the failed explanation
     try:
         tr = GB.run(sc, tape_mode="script", script=script)
     except TapeMismatch as e:
